@@ -1,7 +1,7 @@
 (* Extraction of the C06 model for the correspondence check: ExtrOcamlBasic only, Z stays inductive. *)
 From Coq Require Import ZArith List.
-Require Import PV.Lib.Bytes PV.Model.Wire PV.Model.KeyProtect.
+Require Import PV.Lib.Bytes PV.Model.Wire PV.Model.KeyProtect PV.Spec.Rfc4880_keyprotect.
 Require Extraction.
 Require Import ExtrOcamlBasic.
-Extraction "../ocaml/gen/ex_c06.ml" protect unprotect_std read_key pkts_of_read run_trace rewrite_key s2k_parse blob_emit
+Extraction "../ocaml/gen/ex_c06.ml" protect unprotect_std read_key pkts_of_read run_trace rewrite_key s2k_parse blob_emit rfc_secret_part
   int_to_bytes bytes_to_int Z.add Z.mul.
